@@ -1,5 +1,199 @@
 import RV.Json
+import RV.Drv.Arith
+import RV.Model.Webhook
+import RV.Oracle.C08
 namespace RV.Drv.Webhook
-open Lean RV
-def handle : Handler := fun op _ _ => .error s!"Webhook: op {op} not implemented"
+open Lean RV RV.Arith RV.Webhook
+
+/-! JSON ⇄ model for suite "webhook" (see harness/suite_webhook.go, functions abs*). -/
+
+def iosOpt (j : Json) (k : String) : R (Option IntOrPct) := RV.Drv.Arith.iosOptOfJson j k
+
+def ruOfJson (j : Json) : R RU := do
+  return { maxUnavailable := ← iosOpt j "mu", maxSurge := ← iosOpt j "ms" }
+
+def ruOpt (j : Json) (k : String) : R (Option RU) :=
+  match jopt j k with
+  | none => .ok none
+  | some v => do return some (← ruOfJson v)
+
+def stratAnnoOfJson (j : Json) (k : String) : R StratAnno :=
+  match jopt j k with
+  | none => .ok .absent
+  | some (.str "invalid") => .ok .invalid
+  | some v => do
+    return .valid { rollingStyle := ← fStr v "style", ru := ← ruOpt v "ru", paused := ← fBool v "paused",
+                    partition := ← RV.Drv.Arith.iosOfJson (← jget v "partition") }
+
+def inProgOfJson (j : Json) (k : String) : R InProg :=
+  match jopt j k with
+  | none => .ok .absent
+  | some v =>
+    match jopt v "rollout", jopt v "raw" with
+    | some n, _ => do return .rollout (← jstr n)
+    | _, some r => do return .other (← jstr r)
+    | _, _ => .error s!"bad inProgress {v.compress}"
+
+def ruBlockOfJson (j : Json) (k : String) : R RUBlock :=
+  match jopt j k with
+  | none => .ok .absent
+  | some (.str _) => .ok .malformed
+  | some v => do return .present (← fOptInt v "partition")
+
+def usOfJson (j : Json) (k : String) : R UpdStrat :=
+  match jopt j k with
+  | none => .ok .absent
+  | some (.str _) => .ok .malformed
+  | some v => do return .present (← fStr v "type") (← ruBlockOfJson v "ru")
+
+def objOfJson (j : Json) : R Obj := do
+  let t ← jget j "tmpl"
+  return {
+    group := ← fStr j "group", kind := ← fStr j "kind", name := ← fStr j "name",
+    workloadType := ← fStr j "wtype",
+    replicas := ← fOptInt j "replicas",
+    rolloutId := ← fStr j "rolloutId",
+    tmplPresent := ← fBool j "tmplPresent",
+    tmpl := { body := ← fNat t "body", hash := ← fStr t "hash" },
+    inProgress := ← inProgOfJson j "inProgress",
+    paused := ← fBool j "paused",
+    stratType := ← fStr j "stratType",
+    stratRU := ← ruOpt j "stratRU",
+    stratAnno := ← stratAnnoOfJson j "stratAnno",
+    hasOrigStrategy := ← fBool j "origStrat",
+    stableRev := ← fStr j "stableRev",
+    csPartition := ← iosOpt j "csPartition",
+    statusReplicas := ← fInt j "statusReplicas",
+    statusUpdated := ← fInt j "statusUpdated",
+    us := ← usOfJson j "us",
+    rest := ← fNat j "rest" }
+
+def rolloutOfJson (j : Json) : R Rollout := do
+  return { name := ← fStr j "name", deleting := ← fBool j "deleting", phaseDisabled := ← fBool j "disabled",
+           refApiVersion := ← fStr j "apiVersion", refKind := ← fStr j "kind", refName := ← fStr j "refName",
+           emptyRelease := ← fBool j "empty", hasTraffic := ← fBool j "traffic" }
+
+def rsOfJson (j : Json) : R RS := do
+  let ctrl ← match (← fStr j "ctrl") with
+    | "none" => pure Ctrl.none
+    | "same" => pure Ctrl.same
+    | "other" => pure Ctrl.other
+    | s => throw s!"bad ctrl {s}"
+  return { deleting := ← fBool j "deleting", replicas := ← fOptInt j "replicas", ctrl := ctrl,
+           selected := ← fBool j "selected", tmplBody := ← fNat j "body", hashLabel := ← fStr j "hash",
+           revision := ← fOptInt j "rev", created := ← fInt j "created" }
+
+def whOfJson (j : Json) : R WH := do
+  let sel ← match (← fStr j "sel") with
+    | "nil" => pure Sel.nil
+    | "everything" => pure Sel.everything
+    | "invalid" => pure Sel.invalid
+    | "existsWT" => pure Sel.existsWorkloadType
+    | s => throw s!"bad sel {s}"
+  return { rules := ← jlistM jbool (← jget j "rules"), sel := sel }
+
+def reqOfJson (j : Json) : R Req := do
+  let cfg ← match jopt j "cfg" with
+    | none => pure none
+    | some v => do pure (some (← jlistM whOfJson v))
+  return { unified := ← fBool j "unified", op := ← fStr j "op", subResource := ← fStr j "sub",
+           dryRunSet := ← fBool j "dryRun", cfg := cfg,
+           old := ← objOfJson (← jget j "old"), new := ← objOfJson (← jget j "new"),
+           oldMetaPresent := ← fBool j "oldMeta",
+           rollouts := ← jlistM rolloutOfJson (← jget j "rollouts"),
+           rss := ← jlistM rsOfJson (← jget j "rss") }
+
+/-! model → JSON -/
+
+def iosJ : IntOrPct → Json := RV.Drv.Arith.iosToJson
+
+def ruJ (r : RU) : Json := mkObj [("mu", optJ iosJ r.maxUnavailable), ("ms", optJ iosJ r.maxSurge)]
+
+def stratAnnoJ : StratAnno → Json
+  | .absent => .null
+  | .invalid => strJ "invalid"
+  | .valid s => mkObj [("style", strJ s.rollingStyle), ("ru", optJ ruJ s.ru), ("paused", boolJ s.paused),
+                       ("partition", iosJ s.partition)]
+
+def inProgJ : InProg → Json
+  | .absent => .null
+  | .rollout n => mkObj [("rollout", strJ n)]
+  | .other r => mkObj [("raw", strJ r)]
+
+def usJ : UpdStrat → Json
+  | .absent => .null
+  | .malformed => strJ "malformed"
+  | .present t ru =>
+    let r := match ru with
+      | .absent => Json.null
+      | .malformed => strJ "malformed"
+      | .present p => mkObj [("partition", optJ intJ p)]
+    mkObj [("type", strJ t), ("ru", r)]
+
+def objJ (o : Obj) : Json :=
+  mkObj [("group", strJ o.group), ("kind", strJ o.kind), ("name", strJ o.name), ("wtype", strJ o.workloadType),
+         ("replicas", optJ intJ o.replicas), ("rolloutId", strJ o.rolloutId), ("tmplPresent", boolJ o.tmplPresent),
+         ("tmpl", mkObj [("body", natJ o.tmpl.body), ("hash", strJ o.tmpl.hash)]),
+         ("inProgress", inProgJ o.inProgress), ("paused", boolJ o.paused), ("stratType", strJ o.stratType),
+         ("stratRU", optJ ruJ o.stratRU), ("stratAnno", stratAnnoJ o.stratAnno), ("origStrat", boolJ o.hasOrigStrategy),
+         ("stableRev", strJ o.stableRev), ("csPartition", optJ iosJ o.csPartition),
+         ("statusReplicas", intJ o.statusReplicas), ("statusUpdated", intJ o.statusUpdated),
+         ("us", usJ o.us), ("rest", natJ o.rest)]
+
+def outcomeJ : Outcome → Json
+  | .admitted o => mkObj [("res", strJ "admitted"), ("obj", objJ o)]
+  | .rejected => mkObj [("res", strJ "rejected")]
+  | .panic => mkObj [("res", strJ "panic")]
+
+def outcomeOfJson (j : Json) : R Outcome := do
+  match (← fStr j "res") with
+  | "admitted" => return .admitted (← objOfJson (← jget j "obj"))
+  | "rejected" => return .rejected
+  | "panic" => return .panic
+  | s => throw s!"implementation outcome outside the model: {s}"
+
+open RV.Oracle.C08 in
+def tagsOf (rq : Req) (out : Outcome) : List String :=
+  let k := match wkind rq with
+    | .deployment => "deployment" | .cloneSet => "cloneSet" | .daemonSet => "daemonSet"
+    | .stsLike => "stsLike" | .notHandled => "notHandled"
+  let res := match out with
+    | .admitted o => if o == rq.new then "res:unchanged" else "res:mutated"
+    | .rejected => "res:rejected"
+    | .panic => "res:panic"
+  let hold := match mustHoldRollout rq with
+    | some _ => ["mustHold", s!"mustHold:{k}"]
+    | none => []
+  ["kind:" ++ k, res, s!"rollouts:{rq.rollouts.length}", s!"rss:{min rq.rss.length 5}"]
+    ++ hold
+    ++ (if selected rq then ["selected"] else ["trivial", "notSelected"])
+    ++ (if releaseChange rq.old rq.new then ["releaseChange"] else [])
+    ++ (if (matchedRollout rq.new rq.rollouts).isSome then ["rolloutMatched"] else [])
+    ++ (if depInProgress rq then ["depInProgress"] else [])
+    ++ (if depInProgress rq && repauseStyle rq.new then ["repauseStyle"] else [])
+    ++ (if wellFormed rq then [] else ["malformed"])
+    ++ (if dsNoRollingUpdate rq then ["dsNoRollingUpdate"] else [])
+    ++ (if rq.cfg.isNone then ["cfgMissing"] else [])
+    ++ (if rq.unified then ["handler:unified"] else ["handler:workload"])
+
+open RV.Oracle.C08 in
+def handle : Handler := fun op inp impl => do
+  let rq ← reqOfJson inp
+  match op with
+  | "handle" =>
+    let m := outcome rq (RV.Webhook.handle rq)
+    let out ← outcomeOfJson impl
+    return { model := outcomeJ m,
+             holds := [("C08.hold", holdOk rq out), ("C08.frame", frameOk rq out),
+                       ("C08.repause", repauseOk rq out), ("C08.total", totalOk rq out)],
+             tags := tagsOf rq out }
+  | "fetch" =>
+    let m := match fetchMatchedRollout rq.new rq.rollouts with
+      | none => Json.null
+      | some r => strJ r.name
+    return { model := mkObj [("rollout", m)], tags := ["fetch"] }
+  | "effChange" =>
+    return { model := boolJ (isEffectiveRevisionChange rq.old rq.new), tags := ["effChange"] }
+  | _ => .error s!"webhook: unknown op {op}"
+
 end RV.Drv.Webhook
